@@ -24,10 +24,12 @@ STR = re.compile(r'"((?:[^"\\]|\\.)*)"')
 
 class Roles:
     """Which path plays which role.  Paths as xz is given them (relative to its cwd)."""
-    def __init__(self, srcs, dsts, dirname, listfile=None, stdout=False, expect_out=None):
+    def __init__(self, srcs, dsts, dirname, listfile=None, stdout=False, expect_out=None, expect_plain=None):
         self.srcs = list(srcs); self.dsts = list(dsts); self.dirname = dirname
         self.listfile = listfile; self.stdout = stdout
         self.expect_out = list(expect_out or [None] * len(self.srcs))   # expected size of each output
+        # expected content of each output (bytes or None): a hole may only replace zeros of that content
+        self.expect_plain = list(expect_plain or [None] * len(self.srcs))
 
 
 def _merge(text):
@@ -233,9 +235,20 @@ def parse(text, roles, sigsend=None, cwd=None):
                 shim_req = int(args.split(",")[1])
             elif role in ("dst", "out"):
                 key = "out" if role == "out" else f
+                before = pos.get(key, 0)
+                try:
+                    off = int(args.split(",")[1])
+                except ValueError:
+                    off = 0
                 if res == "ok":
                     pos[key] = int(ret)
-                emit("Lseek", f=f, to=role, res=res, whence=("CUR" if "SEEK_CUR" in args else "OTHER"))
+                # do the skipped bytes lie inside this file's content and are they zeros there?
+                plain = roles.expect_plain[f - 1] if 1 <= f <= nsrc else None
+                own = True
+                if plain is not None and "SEEK_CUR" in args and off > 0:
+                    a = before - (outbase if role == "out" else 0)
+                    own = 0 <= a and a + off <= len(plain) and not any(plain[a:a + off])
+                emit("Lseek", f=f, to=role, res=res, whence=("CUR" if "SEEK_CUR" in args else "OTHER"), off=off, own=own)
             elif role == "src":
                 emit("Unexpected", call=l[:120])
         elif name == "fcntl":
